@@ -18,8 +18,11 @@ VPat(i) == CASE i % 3 = 0 -> Null [] i % 3 = 1 -> 1 [] OTHER -> 2
 SPat(i) == CASE i % 4 = 0 -> Null [] i % 4 = 1 -> 1 [] i % 4 = 2 -> 2 [] OTHER -> 1
 Row0(i, k) == [uid |-> i, f |-> [k |-> k, v |-> VPat(i), s |-> SPat(i)]]
 Cols0 == <<"k", "v", "s">>
-InitTabs == UNION {{Table(Cols0, [i \in 1..n |-> Row0(i, ks[i])]) : ks \in [1..n -> 0..2]} : n \in InitRowsA}
+(* a table WITHOUT feature columns (built with features=None): appending featured molecules to it must be rejected *)
+BareTabs == IF 2 \in InitRowsA THEN {Table(<<>>, <<[uid |-> 1, f |-> <<>>], [uid |-> 2, f |-> <<>>]>>)} ELSE {}
+InitTabs0 == UNION {{Table(Cols0, [i \in 1..n |-> Row0(i, ks[i])]) : ks \in [1..n -> 0..2]} : n \in InitRowsA}
 (* B: two rows with a subset of A's columns (so that append is allowed) or an extra column *)
+InitTabs == InitTabs0 \cup BareTabs
 InitB == { Table(<<"k", "v">>, <<[uid |-> 11, f |-> [k |-> 1, v |-> 2]], [uid |-> 12, f |-> [k |-> 0, v |-> Null]]>>),
            Table(<<"k", "e">>, <<[uid |-> 13, f |-> [k |-> 2, e |-> 7]]>>) }
 
@@ -65,8 +68,9 @@ View == <<A, B, depth, start>>
 OrigV(u) == CASE u = 11 -> 2 [] u \in {12, 13} -> Null [] OTHER -> VPat(u)
 OrigS(u) == IF u > 10 THEN Null ELSE SPat(u)
 RowIntact(r) ==
-  /\ ("v" \in DOMAIN r.f => r.f["v"] = OrigV(r.uid))
-  /\ ("s" \in DOMAIN r.f => r.f["s"] = OrigS(r.uid))
+  \* rows of a table that started without feature columns acquire nulls when they are concatenated with featured rows
+  /\ ("v" \in DOMAIN r.f => (r.f["v"] = OrigV(r.uid) \/ (start.A.cols = <<>> /\ r.uid < 10 /\ r.f["v"] = Null)))
+  /\ ("s" \in DOMAIN r.f => (r.f["s"] = OrigS(r.uid) \/ (start.A.cols = <<>> /\ r.uid < 10 /\ r.f["s"] = Null)))
   /\ ("e" \in DOMAIN r.f => r.f["e"] = IF r.uid = 13 THEN 7 ELSE Null)
   /\ ("w" \in DOMAIN r.f /\ "k" \in DOMAIN r.f => r.f["w"] \in {Null, r.f["k"] + 10})
 RowsIntact == \A t \in {A, B} : \A i \in 1..NRows(t) : RowIntact(t.rows[i])
